@@ -20,6 +20,7 @@ e.setdefault('coverage',{})['must_fail_corpus']={
  'rule':'seeded property-breaking changes (/verif/seeded, confirmed to build, pass the pinned tests and fail their demonstration) whose meta.json lists this check; each is applied to a scratch copy of /repo and the check must exit 1',
  'run':len([l for l in lines if 'SKIPPED' not in l]),
  'detected':len([l for l in lines if ' detected by ' in l]),
+ 'undecided':[l for l in lines if ' UNDECIDED ' in l],
  'missed':[l for l in lines if ' MISSED ' in l],
  'skipped':[l for l in lines if 'SKIPPED' in l],
  'results':lines}
